@@ -5,6 +5,7 @@ import Jb.Proofs.Engine
 import Jb.Proofs.Shift
 import Jb.Proofs.GvShift
 import Jb.Proofs.HalfTone
+import Jb.Proofs.EngineHalfTone
 
 set_option linter.unusedSectionVars false
 
@@ -101,5 +102,25 @@ theorem halftone_moves_the_trajectory (gw thr : K) (s : StreamIn K) (durs : List
           if (maskCreate s.stream thr durs).getD f false then (traj.getD f []).map (· + h * Consts.halfTone)
           else traj.getD f [] :=
   mlpgCreate_halfTone gw thr s durs h hh hv hwf hstatic hsum hd hgv hnonneg hdflt hpos hu
+
+/-- **"Additional half tone transposes F0 and nothing else"** for everything `Engine::generator` hands to the vocoder:
+    same durations, same spectrum and low-pass trajectories, same number of log-F0 frames, and log-F0 plus `h·ln2/12` on
+    every voiced frame (no-data marker kept on unvoiced ones), while no state mean is clamped. -/
+theorem pipeline_transposes_only_f0 (c : Condition K) (h : K) (hh : h ≠ 0) (h0 : c.halfTone = 0) (b : Bool)
+    (inp : EngineIn K) (hwf : EngineWF c inp)
+    (s1 : StreamIn K) (hs1 : inp.streams[1]? = some s1) (thr : K) (hthr : c.msdThreshold[1]? = some thr)
+    (hstatic : s1.windows.head? = some [1]) (hsum : ∀ w ∈ s1.windows.tail, w.sum = 0)
+    (hnonneg : ∀ st ∈ s1.stream, ∀ p ∈ st.params, 0 ≤ (withIvar p).vari)
+    (hdflt : 0 ≤ (withIvar (⟨0, 0⟩ : MeanVari K)).vari)
+    (hpos : ∀ st ∈ s1.stream, 0 < (withIvar (st.params.getD 0 ⟨0, 0⟩)).vari)
+    (hu : Unclamped s1.stream h) :
+    ∃ p p', engineParams c b inp = .ok p ∧ engineParams { c with halfTone := h } b inp = .ok p' ∧
+      p'.durations = p.durations ∧ p'.spectrum = p.spectrum ∧ p'.lpf = p.lpf ∧
+      p'.lf0.length = p.lf0.length ∧
+      ∀ f, f < p.lf0.length →
+        p'.lf0.getD f [] =
+          if (maskCreate s1.stream thr p.durations).getD f false then (p.lf0.getD f []).map (· + h * Consts.halfTone)
+          else p.lf0.getD f [] :=
+  engineParams_halfTone c h hh h0 b inp hwf s1 hs1 thr hthr hstatic hsum hnonneg hdflt hpos hu
 
 end Jb.C15
